@@ -956,8 +956,9 @@ func judgeApply(o *Out, op string, c *typCtx, ig ignoreCfg, up *merge.Updater, s
 			}
 		}
 	}
-	// C07: exact no-op signal, re-apply is a fixed point
-	if !noopMode {
+	// C07: exact no-op signal, re-apply is a fixed point (these clauses compare separate calls with
+	// each other: not meaningful where finding D10 makes a single call's outcome order dependent)
+	if !noopMode && orderDependentVersions(pre, mgr, ver) < 2 && orderDependentVersions(managers, mgr, ver) < 2 {
 		// independent equality: canonical encodings (numerically equal ints/floats coincide)
 		eq := vx.CanonValue(st.live.AsValue()) == vx.CanonValue(result.AsValue())
 		if wasNoop {
